@@ -313,6 +313,10 @@ def run(ctx):
     ver = gtirb.version.PROTOBUF_VERSION
     hdr = b"GTIRB\0\0" + bytes([ver])
     tie = ms.CheckedTie(ctx, "msg", "msg", flush_at=200)
+    wire = None
+    if ctx.prop == "C17":       # model W on faulty files (see pbwire_tie.py)
+        import pbwire_tie
+        wire = pbwire_tie.WireTie(ctx, gtirb, flush_at=150)
     n_files = ctx.scale(6, 40)
     for fno in range(n_files):
         gen = irgen.Gen(gtirb, rng, rng.choice([0.4, 0.8]))
@@ -358,6 +362,9 @@ def run(ctx):
                            replay, "a file with a wrong %s was not rejected "
                            "with ValueError (%s)" % (fclass, out))
                 return
+            if wire is not None and mmsg is not None and len(data) >= 8:
+                wire.add("file %d %s" % (fno, what), mmsg, data[8:],
+                         strict=(fclass == "none"))
             # model comparison on the message level
             if mmsg is not None:
                 M = irdump.dump_mir(mmsg)
@@ -430,6 +437,8 @@ def run(ctx):
         if len(ctx.violations) >= 3:
             break
     tie.flush()
+    if wire is not None:
+        wire.flush()
 
 
 def try_parse(gtirb, raw):
